@@ -84,16 +84,16 @@ theorem applyP_pairRel (s : Bool) (ads1 ads2 : List Matchable) (m : PMod) (hok :
           split <;> rfl
   | pairedRename t1 t2 =>
     simp only [applyP] at h
-    cases h1 : t1.mapM (renderTok (namesOf ads1) r1 i1) with
-    | error e => rw [h1] at h; simp [bind, Except.bind] at h
-    | ok n1 =>
-      cases h2 : t2.mapM (renderTok (namesOf ads2) r2 i2) with
-      | error e => rw [h1, h2] at h; simp [bind, Except.bind] at h
-      | ok n2 =>
-        rw [h1, h2] at h
-        simp only [bind, Except.bind, pure, Except.pure, Except.ok.injEq, Prod.mk.injEq] at h
-        obtain ⟨⟨rfl, rfl⟩, ⟨rfl, rfl⟩, _⟩ := h
-        exact ⟨⟨⟨[], SegRel.of_eq rfl rfl⟩, ⟨[], SegRel.of_eq rfl rfl⟩⟩, rfl⟩
+    split at h
+    · simp at h
+    · split at h
+      · split at h
+        · simp at h
+        · simp only [Except.ok.injEq, Prod.mk.injEq] at h
+          obtain ⟨⟨rfl, rfl⟩, ⟨rfl, rfl⟩, _⟩ := h
+          exact ⟨⟨⟨[], SegRel.of_eq rfl rfl⟩, ⟨[], SegRel.of_eq rfl rfl⟩⟩, rfl⟩
+      · simp at h
+      · simp at h
 
 theorem PairRel.qualOK {s : Bool} {r o : Read × Read} (h : PairRel s r o) (h1 : QualOK r.1) (h2 : QualOK r.2) :
     QualOK o.1 ∧ QualOK o.2 := by
